@@ -258,7 +258,7 @@ func main() {
 		return
 	}
 	kit.Main(&kit.Check{
-		ID: "C28", Level: "model_checking",
+		ID: "C28", Level: "model_checking", SlowIsNotHang: true,
 		Rule:          "scenario = (mechanism, items, goroutines, failing callback position, fail-once|fail-always); per scenario every interleaving at the synchronisation points of the rewritten real code plus a yield inside the callback, iterative preemption bounds with happens-before caching. Non-trivial = execution with at least one scheduling choice; distinct = happens-before keys at choice points.",
 		Assumptions:   []string{"code between two synchronisation operations runs atomically (data-race freedom is checked separately)", "sync/atomic operations are not scheduling points", "map iteration uses one fixed (sorted) order"},
 		QuickDeadline: 200e9, ThoroughDeadline: 1500e9, CaseTimeout: 300e9, Chunk: 1, WorkerEnv: []string{"GOMAXPROCS=1"},
